@@ -138,6 +138,20 @@ func (x *seqExtractor) walk(n ast.Node, depth int, visit func(call *ast.CallExpr
 		switch s := n.(type) {
 		case nil:
 			return
+		case *ast.BlockStmt:
+			// an early `if <version cond> { return … }` without primitives guards the REST of the block with the negation
+			pushed := 0
+			for _, st := range s.List {
+				rec(st, depth)
+				if ifs, ok := st.(*ast.IfStmt); ok && ifs.Else == nil && ifs.Init == nil {
+					if vc := versionCond(ifs.Cond); vc != "" && isOrderingCmp(ifs.Cond) && endsWithReturn(ifs.Body) && !x.hasPrimitive(ifs.Body) {
+						x.conds = append(x.conds, negateCond(ifs.Cond, vc))
+						pushed++
+					}
+				}
+			}
+			x.conds = x.conds[:len(x.conds)-pushed]
+			return
 		case *ast.IfStmt:
 			vc := versionCond(s.Cond)
 			rec(s.Init, depth)
@@ -151,7 +165,7 @@ func (x *seqExtractor) walk(n ast.Node, depth int, visit func(call *ast.CallExpr
 			}
 			if s.Else != nil {
 				if vc != "" {
-					x.conds = append(x.conds, "!("+vc+")")
+					x.conds = append(x.conds, negateCond(s.Cond, vc))
 				}
 				rec(s.Else, depth)
 				if vc != "" {
